@@ -8,7 +8,7 @@ import subprocess
 from . import common
 
 CLAUSES = {
-    "C04": {"I_missing_class", "I_class_name", "I_missing_attribute", "I_extra_attribute", "I_duplicate_attribute", "I_required",
+    "C04": {"I_special_and", "I_missing_class", "I_class_name", "I_missing_attribute", "I_extra_attribute", "I_duplicate_attribute", "I_required",
             "I_annotation", "I_validator", "I_literal_default", "I_default", "I_missing_enum", "I_enum_base", "I_missing_alias",
             "I_alias_type", "I_extra_definition"},
     "C09": {"M_missing_method", "M_extra_method", "M_message_class", "M_response_class", "M_params", "M_registration_options",
